@@ -214,9 +214,11 @@ def parse_directive(block):
         if s == "bottom:":
             cur = ("bottom",)
             continue
-        mm = re.match(r"(before|after)\s+(" + _STR + r"):\s*$", s)
+        mm = re.match(r"(before|after)(\?)?\s+(" + _STR + r"):\s*$", s)
         if mm:
-            cur = (mm.group(1), _unq(mm.group(2)))
+            # `before? "text":` - a proof hint for a statement that only some accepted shapes of the function have; where
+            # the statement is absent the hint is simply not inserted (the contract is what decides)
+            cur = (mm.group(1), ("?" if mm.group(2) else "") + _unq(mm.group(3)))
             continue
         mm = re.match(r"lift\s+(" + _STR + r")\s*$", s)
         if mm:
@@ -457,6 +459,10 @@ def build_item(d, canary=False, repo=REPO):
             pos = lp["kw_pos"] + mm.end()
             body = body[:pos] + " " + spec["iter"] + ":" + body[pos:]
     for anchor, txt in d["before"]:
+        if anchor.startswith("?"):
+            anchor = anchor[1:]
+            if body.count(anchor) == 0:
+                continue
         n = body.count(anchor)
         if n != 1:
             raise AssembleError("anchor lost in %s: %r occurs %d times" % (where, anchor, n))
@@ -464,6 +470,10 @@ def build_item(d, canary=False, repo=REPO):
         ls = body.rfind("\n", 0, p) + 1
         body = body[:ls] + txt.rstrip() + "\n" + body[ls:]
     for anchor, txt in d["after"]:
+        if anchor.startswith("?"):
+            anchor = anchor[1:]
+            if body.count(anchor) == 0:
+                continue
         n = body.count(anchor)
         if n != 1:
             raise AssembleError("anchor lost in %s: %r occurs %d times" % (where, anchor, n))
@@ -476,7 +486,12 @@ def build_item(d, canary=False, repo=REPO):
         body = "{\n" + d["top"].rstrip() + "\n" + body[1:]
     if canary_here:
         body = "{\n proof { assert(false); } // canary: must FAIL (requires satisfiable)\n" + body[1:]
-    out = d["prefix"] + (" " if d["prefix"] else "") + sig + "\n" + contract.rstrip() + "\n" + body + "\n"
+    prefix = d["prefix"]
+    if os.environ.get("VERIF_LOOP_ISOLATION", "off") == "off" and find_loops(body) and "loop_isolation" not in prefix:
+        # loops see the facts established before them about variables they do not modify, so an edit that introduces a new
+        # local before a loop does not need a new invariant
+        prefix = (prefix + " " if prefix else "") + "#[verifier::loop_isolation(false)] #[verifier::allow_complex_invariants]"
+    out = prefix + (" " if prefix else "") + sig + "\n" + contract.rstrip() + "\n" + body + "\n"
     return out, meta
 
 
